@@ -365,8 +365,11 @@ def inline_new_aliases(repo, ref):
                 continue
             root, attrs = ch[0], set(ch[1:])
             # the root is not rebound and no attribute of the chain is stored in this function
-            if any(isinstance(n, ast.Name) and n.id == root and isinstance(n.ctx, (ast.Store, ast.Del)) for n in walk_own(fi.node)):
-                continue
+            root_stores = [n for n in walk_own(fi.node) if isinstance(n, ast.Name) and n.id == root and isinstance(n.ctx, (ast.Store, ast.Del))]
+            if root_stores:
+                in_loop = any(isinstance(a_, (ast.For, ast.While, ast.AsyncFor)) for a_ in _ancestors(st, fi.node))
+                if in_loop or any(_pos(n) >= _pos(st) for n in root_stores):
+                    continue
             if writers is None:
                 writers = _attr_writers(repo)
             if q in writers.get("*", ()):
@@ -857,15 +860,48 @@ def _tailify(stmts, conv):
         if isinstance(st, ast.Return):
             return out + conv(st.value), True
         if _has_return(st):
+            rest = stmts[i + 1:]
+            if isinstance(st, ast.Try):
+                # returns in the handlers / the else suite only: the statements after the try run when the body completed
+                # normally (-> appended to the else suite, which no handler covers, like the original position) and after a
+                # handler that falls through (-> appended to that handler)
+                if any(_has_return(x) for x in st.body) or any(_has_return(x) for x in st.finalbody):
+                    raise _Refuse("return inside a try body / finally")
+                o, to = _tailify(list(st.orelse) + rest, conv)
+                hs, all_t = [], to
+                for h in st.handlers:
+                    hb, th = _tailify(list(h.body) + rest, conv)
+                    hs.append(ast.ExceptHandler(type=h.type, name=h.name, body=hb or [ast.Pass()]))
+                    all_t = all_t and th
+                new = ast.Try(body=st.body, handlers=hs, orelse=o, finalbody=st.finalbody)
+                return out + [new], all_t
             if not isinstance(st, ast.If):
                 raise _Refuse("return inside %s" % type(st).__name__)
-            rest = stmts[i + 1:]
             b, tb = _tailify(list(st.body) + rest, conv)
             o, to = _tailify(list(st.orelse) + rest, conv)
             new = ast.If(test=st.test, body=b or [ast.Pass()], orelse=o)
             return out + [new], (tb and to)
         out.append(st)
     return out, False
+
+
+def _search_loops(stmts):
+    """for x in it: if c: return K      ->  return any(c for x in it)   (K True, then `return False`)
+       return not K                          return all(not c for x in it)   (K False, then `return True`)"""
+    out = list(stmts)
+    for i in range(len(out) - 1):
+        a, b = out[i], out[i + 1]
+        if isinstance(a, ast.For) and not a.orelse and len(a.body) == 1 and isinstance(a.body[0], ast.If) and not a.body[0].orelse \
+                and len(a.body[0].body) == 1 and isinstance(a.body[0].body[0], ast.Return) and isinstance(b, ast.Return) \
+                and isinstance(a.body[0].body[0].value, ast.Constant) and isinstance(b.value, ast.Constant) \
+                and a.body[0].body[0].value.value in (True, False) and b.value.value is (not a.body[0].body[0].value.value):
+            found = a.body[0].body[0].value.value
+            cond = a.body[0].test
+            elt = cond if found else ast.UnaryOp(op=ast.Not(), operand=cond)
+            gen = ast.GeneratorExp(elt=elt, generators=[ast.comprehension(target=a.target, iter=a.iter, ifs=[], is_async=0)])
+            call = ast.Call(func=ast.Name(id="any" if found else "all", ctx=ast.Load()), args=[gen], keywords=[])
+            return out[:i] + [ast.Return(value=call)] + out[i + 2:]
+    return out
 
 
 class _SubstNames(ast.NodeTransformer):
@@ -963,8 +999,79 @@ def inline_new_helpers(repo, full_ref):
                         if not earlier and not in_target:
                             form = "nested"
                             st = top
+                    elif isinstance(top, ast.If) and any(y is c for y in ast.walk(top.test)) \
+                            and not _inside(c, (ast.Lambda, ast.ListComp, ast.SetComp, ast.DictComp, ast.GeneratorExp, ast.IfExp), top):
+                        # in the test of an if (also an elif: the temporary is bound in the else suite the elif lives in), as the
+                        # first thing evaluated: not behind a short-circuit operand, no call before it
+                        child, short = c, False
+                        for a_ in _ancestors(c, top):
+                            if isinstance(a_, ast.BoolOp) and a_.values[0] is not child:
+                                short = True
+                            if isinstance(a_, ast.Compare) and a_.left is not child:
+                                short = True
+                            child = a_
+                        anc_ids = {id(a_) for a_ in _ancestors(c, top)}
+                        earlier = [x for x in ast.walk(top.test) if isinstance(x, (ast.Call, ast.Await, ast.NamedExpr)) and x is not c
+                                   and id(x) not in anc_ids and not any(y is x for y in ast.walk(c)) and _pos(x) < _pos(c)]
+                        if not short and not earlier:
+                            form = "nested"
+                            st = top
                 sites.append((fi, c, st, form, ok_recv, recv))
-        if not sites or other_uses or any(not ok or form is None for (_, _, _, form, ok, _) in sites):
+        if not sites or other_uses or any(not ok for (_, _, _, form, ok, _) in sites):
+            continue
+        # a helper that is one `return <expression>`: the expression replaces the call wherever it stands (it is evaluated
+        # exactly where the call was), provided the arguments are simple enough to be evaluated at their places of use
+        hbody = [s_ for s_ in h.node.body if not (isinstance(s_, ast.Expr) and isinstance(s_.value, ast.Constant) and isinstance(s_.value.value, str))]
+        if len(hbody) == 1 and isinstance(hbody[0], ast.Return) and hbody[0].value is not None and not stored_params:
+            def simple_arg(e):
+                return isinstance(e, (ast.Name, ast.Constant)) or (isinstance(e, ast.Attribute) and simple_arg(e.value)) \
+                    or (isinstance(e, ast.UnaryOp) and simple_arg(e.operand)) or (isinstance(e, ast.BinOp) and simple_arg(e.left) and simple_arg(e.right)) \
+                    or (isinstance(e, ast.Subscript) and simple_arg(e.value) and isinstance(e.slice, (ast.Constant, ast.Name)))
+            ok_all = True
+            plans = []
+            for (fi, c, st, form, _, recv) in sites:
+                if any(isinstance(x, ast.Starred) for x in c.args) or any(k.arg is None for k in c.keywords):
+                    ok_all = False
+                    break
+                argmap = dict(zip(call_params, c.args))
+                for k in c.keywords:
+                    if k.arg not in call_params or k.arg in argmap:
+                        ok_all = False
+                    argmap[k.arg] = k.value
+                mapping = {}
+                for p_ in call_params:
+                    e = argmap.get(p_)
+                    if e is None and p_ in defaults:
+                        mapping[p_] = defaults[p_]
+                    elif e is not None and simple_arg(e):
+                        mapping[p_] = "(%s)" % ast.unparse(e)
+                    else:
+                        ok_all = False
+                if recv_param is not None:
+                    mapping[recv_param] = recv or "self"
+                # names bound inside the expression (comprehension variables) must not capture caller names used in arguments
+                bound = {x.id for x in ast.walk(hbody[0].value) if isinstance(x, ast.Name) and isinstance(x.ctx, ast.Store)}
+                if bound & {x.id for e in argmap.values() for x in ast.walk(e) if isinstance(x, ast.Name)}:
+                    ok_all = False
+                plans.append((fi, c, mapping))
+            if ok_all:
+                for (fi, c, mapping) in plans:
+                    expr = ast.parse(ast.unparse(hbody[0].value), mode="eval").body
+                    expr = _SubstNames(mapping).visit(expr)
+                    ast.fix_missing_locations(expr)
+                    new = _install(c, expr)
+                    new._inlined_from = hq
+                    done.setdefault(fi.qual, []).append(h.name)
+                del repo.funcs[hq]
+                if h.cls is not None:
+                    h.cls.methods.pop(h.name, None)
+                    lst = repo.by_name_methods.get(h.name, [])
+                    if h in lst:
+                        lst.remove(h)
+                else:
+                    h.module.funcs.pop(h.name, None)
+                continue
+        if any(form is None for (_, _, _, form, _, _) in sites):
             continue
         try:
             for (fi, c, st, form, _, recv) in sites:
@@ -1022,6 +1129,8 @@ def inline_new_helpers(repo, full_ref):
                     return [ast.Return(value=value)]
                 body = [s for s in h.node.body if not (isinstance(s, ast.Expr) and isinstance(s.value, ast.Constant) and isinstance(s.value.value, str))]
                 body = ast.parse("\n".join(ast.unparse(s) for s in body) or "pass").body
+                body = _search_loops(body)
+                ast.fix_missing_locations(ast.Module(body=body, type_ignores=[]))
                 new, terminated = _tailify(body, conv)
                 if not terminated:
                     new = new + conv(None) if form != "expr" else new
@@ -1044,6 +1153,8 @@ def inline_new_helpers(repo, full_ref):
                 done.setdefault(fi.qual, []).append(h.name)
         except _Refuse:
             continue
+        for (fi, _c, _st, _f, _o, _r) in sites:
+            _thread_flags(fi.node)
         # every call was inlined: the helper is gone from the translated program
         del repo.funcs[hq]
         if h.cls is not None:
@@ -1136,3 +1247,113 @@ def _pure_over_locals(e, fi):
             continue
         return False
     return True
+
+
+def _leaves(st):
+    """the statement lists at whose end control leaves the compound statement `st` normally, or None when some way out of it
+    is not the end of a suite (a loop, a with, an if without else)"""
+    if isinstance(st, ast.If):
+        if not st.orelse:
+            return None
+        out = []
+        for suite in (st.body, st.orelse):
+            l = _suite_leaves(suite)
+            if l is None:
+                return None
+            out += l
+        return out
+    if isinstance(st, ast.Try) and not st.finalbody:
+        out = []
+        for suite in [st.orelse if st.orelse else st.body] + [h.body for h in st.handlers]:
+            l = _suite_leaves(suite)
+            if l is None:
+                return None
+            out += l
+        return out
+    return None
+
+
+def _suite_leaves(suite):
+    if not suite:
+        return None
+    last = suite[-1]
+    if isinstance(last, (ast.If, ast.Try)):
+        return _leaves(last)
+    return [suite]
+
+
+def _thread_flags(fnode):
+    """S; if F: A else: B   where every way out of the compound statement S ends with `F = <value>` and the helper temporary F
+    (named _h...) is read nowhere else: the test moves to the assignments (A or B directly for constants)"""
+    changed = True
+    while changed:
+        changed = False
+        for owner, field, blk in _blocks(fnode):
+            for i in range(len(blk) - 1):
+                s1, s2 = blk[i], blk[i + 1]
+                if not isinstance(s2, ast.If):
+                    continue
+                t, neg = s2.test, False
+                while isinstance(t, ast.UnaryOp) and isinstance(t.op, ast.Not):
+                    t, neg = t.operand, not neg
+                if not (isinstance(t, ast.Name) and t.id.startswith("_h")):
+                    continue
+                flag = t.id
+                uses = [n for n in walk_own(fnode) if isinstance(n, ast.Name) and n.id == flag and isinstance(n.ctx, ast.Load)]
+                if len(uses) != 1:
+                    continue
+                leaves = _leaves(s1)
+                if not leaves:
+                    continue
+                if not all(isinstance(l[-1], ast.Assign) and len(l[-1].targets) == 1 and isinstance(l[-1].targets[0], ast.Name) and l[-1].targets[0].id == flag for l in leaves):
+                    continue
+                stores = [n for n in walk_own(fnode) if isinstance(n, ast.Name) and n.id == flag and isinstance(n.ctx, ast.Store)]
+                if len(stores) != len(leaves):
+                    continue
+                for l in leaves:
+                    v = l[-1].value
+                    if isinstance(v, ast.Constant):
+                        suite = s2.body if (bool(v.value) != neg) else s2.orelse
+                        rep = [ast.parse(ast.unparse(x)).body[0] for x in suite]
+                    else:
+                        test = ast.UnaryOp(op=ast.Not(), operand=v) if neg else v
+                        node = ast.If(test=test, body=s2.body, orelse=s2.orelse)
+                        ast.fix_missing_locations(node)
+                        rep = [ast.parse(ast.unparse(node)).body[0]]
+                    parent = l[-1]._parent
+                    for r in rep:
+                        for y in ast.walk(r):
+                            ast.copy_location(y, l[-1])
+                            for ch in ast.iter_child_nodes(y):
+                                ch._parent = y
+                        r._parent = parent
+                    l[-1:] = rep or [ast.copy_location(ast.Pass(), s2)]
+                    if not rep:
+                        l[-1]._parent = parent
+                del blk[i + 1]
+                _cleanup(fnode)
+                _invalidate(owner)
+                changed = True
+                break
+            if changed:
+                break
+
+
+def _cleanup(fnode):
+    """`pass` next to other statements, `else: pass`, and `if c: pass else: B` left behind by the threading"""
+    for owner, field, blk in _blocks(fnode):
+        if len(blk) > 1:
+            keep = [s_ for s_ in blk if not isinstance(s_, ast.Pass)]
+            blk[:] = keep or blk[:1]
+    for n in walk_own(fnode):
+        if isinstance(n, ast.If):
+            if n.orelse and all(isinstance(x, ast.Pass) for x in n.orelse):
+                n.orelse = []
+            if n.orelse and all(isinstance(x, ast.Pass) for x in n.body):
+                n.test = ast.copy_location(ast.UnaryOp(op=ast.Not(), operand=n.test), n.test)
+                n.test._parent = n
+                n.test.operand._parent = n.test
+                n.body, n.orelse = n.orelse, []
+        if isinstance(n, ast.Try):
+            if n.orelse and all(isinstance(x, ast.Pass) for x in n.orelse):
+                n.orelse = []
